@@ -139,6 +139,9 @@ func ToWalletAddr(protoAddr *Address) (map[wallet.BackendID]wallet.Address, erro
 			return nil, fmt.Errorf("failed to read key: %w", err)
 		}
 		addr := wallet.NewAddress(wallet.BackendID(k))
+		if addr == nil {
+			return nil, fmt.Errorf("unknown wallet backend id: %d", k)
+		}
 		if err := addr.UnmarshalBinary(protoAddr.GetAddressMapping()[i].GetAddress()); err != nil {
 			return nil, fmt.Errorf("failed to unmarshal address for key %d: %w", k, err)
 		}
@@ -284,6 +287,9 @@ func ToAllocation(protoAlloc *Allocation) (alloc *channel.Allocation, err error)
 	alloc.Assets = make([]channel.Asset, len(protoAlloc.GetAssets()))
 	for i := range protoAlloc.GetAssets() {
 		alloc.Assets[i] = channel.NewAsset(alloc.Backends[i])
+		if alloc.Assets[i] == nil {
+			return nil, fmt.Errorf("unknown backend id %d of asset %d", alloc.Backends[i], i)
+		}
 		err = alloc.Assets[i].UnmarshalBinary(protoAlloc.GetAssets()[i])
 		if err != nil {
 			return nil, errors.WithMessagef(err, "%d'th asset", i)
